@@ -7,7 +7,9 @@ import Tickit.Model.WinTree
   dispatch, `tickit_window_take_focus` (without its events) and `tickit_window_flush` as far as the tree goes.
 
   Handlers are data (DESIGN §3 "Callbacks"): a binding is a table of entries; invocation `i` runs the actions of
-  entry `min i (n-1)` and returns its `ret`.  The actions are the tree mutations an application may perform from
+  entry `min i (n-1)` and returns its `ret`.  A binding may be one-shot (`TICKIT_BIND_ONESHOT`) and an entry may first
+  unbind the binding it belongs to: such a binding is `gone` from then on (the tombstones and the deferred sweep of
+  src/bindings.c are property C16's model; here a walk passes over what is gone).  The actions are the tree mutations an application may perform from
   inside a handler.  The application rules of the harness (which actions it refuses) are part of the interpreter.
 
   Outcomes: `ok`, `ub` (the C code dereferences freed memory / NULL, or abort()s), `fuel` (the model ran out of
